@@ -242,4 +242,56 @@ fn gds_readlog(case: &Value) -> Value {
     out
 }
 
-fn gds_fault(_case: &Value) -> Value { json!({"outcome":"todo"}) }
+/// C10: read a (faulted / arbitrary) byte string through the instrumented source.
+///   {bytes, pad?, want_log?}  or  {noise_seed, len}
+fn gds_fault(case: &Value) -> Value {
+    let mut stream = if case.get("noise_seed").is_some() {
+        let mut rng = Rng::new(geti(case, "noise_seed") as u64);
+        let n = geti(case, "len") as usize;
+        // noise that looks a little like GDS: plausible length fields and record numbers now and then
+        let mut v = Vec::with_capacity(n);
+        while v.len() < n {
+            if rng.chance(1, 2) { v.push(0); v.push([4u8, 6, 8, 12, 28, 5, 3, 0][rng.below(8) as usize]); v.push(rng.below(62) as u8); v.push(rng.below(8) as u8); }
+            else { v.push(rng.below(256) as u8); }
+        }
+        v.truncate(n);
+        v
+    } else { bytes_of(&case["bytes"]) };
+    stream.extend(std::iter::repeat(0u8).take(case.get("pad").and_then(|p| p.as_u64()).unwrap_or(0) as usize));
+    let size = stream.len();
+    let keep = stream.clone();
+    let (res, log) = read_logged(stream);
+    let mut calls = 0u64; let mut delivered = 0u64; let mut monotone = true; let mut last = 0u64; let mut empty_req = false;
+    let mut seeks = 0u64;
+    for e in &log {
+        if e["e"] == "read" {
+            calls += 1; delivered += e["got"].as_u64().unwrap();
+            let at = e["at"].as_u64().unwrap();
+            if at < last { monotone = false; }
+            last = at;
+            if e["n"].as_u64().unwrap() == 0 { empty_req = true; }
+        } else { seeks += 1; }
+    }
+    let mut out = json!({"id": id(case), "outcome": res["outcome"], "msg": res.get("msg").cloned().unwrap_or(Value::Null),
+                         "size": size, "calls": calls, "delivered": delivered, "monotone": monotone, "empty_req": empty_req, "seeks": seeks});
+    if res["outcome"] == "ok" {
+        // every library the reader returns can be written again and read back to the same value
+        let lib_j = res["lib"].clone();
+        let lib = guarded(|| GdsLibrary::from_bytes(&keep));
+        let rt = match lib {
+            Ok(Ok(lib)) => match guarded(|| write_bytes(&lib)) {
+                Err(p) => json!({"stage":"write","outcome":"panic","msg":p}),
+                Ok(Err(e)) => json!({"stage":"write","outcome":"err","msg":e}),
+                Ok(Ok(w)) => match guarded(|| GdsLibrary::from_bytes(&w)) {
+                    Err(p) => json!({"stage":"reread","outcome":"panic","msg":p}),
+                    Ok(Err(e)) => json!({"stage":"reread","outcome":"err","msg":err_str(e)}),
+                    Ok(Ok(l2)) => json!({"stage":"reread","outcome":"ok","eq": l2 == lib && json_diff(&lib_j, &lib_json(&l2), "").is_none()}),
+                },
+            },
+            _ => json!({"stage":"second-read","outcome":"differs-from-first-read"}),
+        };
+        out["rt"] = rt;
+    }
+    if getb(case, "want_log") { out["log"] = json!(log); out["bytes"] = json!(keep); }
+    out
+}
